@@ -1,11 +1,11 @@
 """Shared plumbing of the check driver: scratch directories, TLC runs, harness build,
 trace chunking, known findings, evidence.  Exit codes: 0 property held, 1 violation,
 2 infrastructure failure (never a verdict)."""
-import json, os, re, shutil, subprocess, sys, tempfile, time, collections
+import atexit, json, os, re, shutil, subprocess, sys, tempfile, time, collections
 
 VERIF = os.path.dirname(os.path.dirname(os.path.abspath(__file__)))
 SPEC = os.path.join(VERIF, 'spec')
-HARNESS = os.path.join(VERIF, 'harness')
+HARNESS = os.environ.get('VERIF_HARNESS') or os.path.join(VERIF, 'harness')   # (a copy bound to a copy of /repo: bin/seedtest --copy)
 BUILD = os.path.join(VERIF, '.build')
 REPO = os.environ.get('VERIF_REPO', '/repo')
 NCPU = os.cpu_count() or 4
@@ -31,7 +31,9 @@ def build_harness(race=False):
     """Rebuild the replay harness against /repo's current working tree (build tag verif)."""
     os.makedirs(BUILD, exist_ok=True)
     shutil.copyfile(os.path.join(REPO, 'go.sum'), os.path.join(HARNESS, 'go.sum'))
-    out = os.path.join(BUILD, 'vh-race' if race else 'vh')
+    # one binary per check process: concurrent checks must not overwrite each other's running harness
+    out = os.path.join(BUILD, ('vh-race' if race else 'vh') + '-%d' % os.getpid())
+    atexit.register(lambda: os.path.exists(out) and os.remove(out))
     cmd = ['go', 'build', '-tags', 'verif'] + (['-race'] if race else []) + ['-o', out, './cmd/vh']
     p = subprocess.run(cmd, cwd=HARNESS, env=GOENV, capture_output=True, text=True)
     if p.returncode != 0:
@@ -205,8 +207,12 @@ def match_known(known, prop, pred, facts):
 
 
 def write_evidence(prop, tier, seed, level, coverage, wall, violations, assumptions):
-    os.makedirs(os.path.join(VERIF, 'evidence'), exist_ok=True)
+    if os.environ.get('VERIF_NO_EVIDENCE'):   # runs on a modified copy of the repository (seeded changes) are not evidence
+        return
+    # checks beyond the listed properties (ids X..) keep their evidence apart from the claimed ones
+    edir = os.path.join(VERIF, 'evidence-extra' if prop.startswith('X') else 'evidence')
+    os.makedirs(edir, exist_ok=True)
     ev = dict(property_id=prop, tier=tier, seed=seed, level=level, coverage=coverage,
               assumptions=assumptions, wall_s=round(wall, 2), violations=violations)
-    with open(os.path.join(VERIF, 'evidence', prop + '.json'), 'w') as f:
+    with open(os.path.join(edir, prop + '.json'), 'w') as f:
         json.dump(ev, f, indent=1)
